@@ -59,6 +59,16 @@ claim("C15", "static analysis: disallowed-callee / disallowed-conversion rule ov
       "Decides that string functions cannot treat Lua strings as UTF-8, that %c writes one byte, that each libm-named math entry calls exactly that function with its arguments and results in order, and that % and math.mod share one implementation. It does not decide index clamping, printf flag rendering or random's range.",
       BASE + "Go's math package returns the IEEE result of each function.", "DESIGN.md §3 C15")
 
+claim("C02", "static analysis: must-pass-through and exactly-once (no second event reachable) on the pruned SSA CFG of OP_TAILCALL, callGFunction, OP_RETURN and RemoveCallerFrame; path-condition check that frame pushes sit on the host-callee arm; sibling agreement of the two frame constructors",
+      "Decides the frame neutrality of tail calls: a Lua callee reuses the running frame, a host callee's frame always goes through the caller-frame removal, and every return path pops exactly one frame; 'return f(args)' (and only the non-parenthesised form) is compiled to OP_TAILCALL. It does not decide argument/result adjustment (arithmetic on run-time counts).",
+      BASE, "DESIGN.md §3 C02")
+claim("C04", "static analysis: call-graph reachability (VTA) from the raw operations to the metamethod machinery, table agreement of the event-name constants reaching the lookup helpers with the Lua 5.1 manual §2.8 table, argument-identity checks for operand order and for the swapped/negated __le fallback, push-sequence shape before handler calls",
+      "Decides that rawget/rawset/rawequal cannot reach a handler, that every operation looks up the event the manual prescribes with its operands in source order (left operand first), and that handlers are invoked as (handler, operands…) for one result. It does not decide raw-first lookup order, absent-key conditions or chain depth.",
+      BASE + "Lua 5.1 manual §2.8 event table written out in the checker.", "DESIGN.md §3 C04")
+claim("C06", "static analysis: guard dominance (dead/running tests before every threadRun), must-pass-through with the no-return axiom as an exit (every error arm with a resumer releases and kills before re-raising), constant-argument table of switchToParentThread call sites, phi-edge table of Status",
+      "Decides that a dead or running coroutine cannot be resumed, that every way an error leaves a coroutine kills it and restores the resumer as current thread (plain and wrapped arms agree), that only the yield site keeps a coroutine alive, and that status derives its answers from Dead/CurrentThread/Parent in that order. It does not decide payload transfer or register offsets.",
+      BASE, "DESIGN.md §3 C06")
+
 for pid in ["C%02d" % i for i in range(2, 21)]:
     if pid not in P:
         na(pid, "check not built yet in this session (planned rules: DESIGN.md §3 %s); not claimed until its rules run clean" % pid)
